@@ -27,7 +27,7 @@ def oracle(op, impl, model):
 
 CFG = {
     "gen_profiles": ["C13"],
-    "cases": {"quick": 300, "thorough": 4000},
+    "cases": {"quick": 1200, "thorough": 12000},
     "compare": "full",
     "oracle": oracle,
     "model_def": "Roaring.deserialize (lean/RoaringModel/Ser.lean: decodeHeader / decodeStore / deserializeG)",
